@@ -655,7 +655,7 @@ def twin_history(ctx, hseed, out=None):
     out.setdefault("ocases", [])
     out.setdefault("dcases", [])
 
-    def both(fn, build=None):
+    def both(fn, build=None, kind=None):
         """fn(P) on both projects (or P.do(build(P)) when a change builder is given: the History.do step of
         the control is then kept as a case for PersistRunner.run_dcase). Returns errors and results."""
         ea = eb = va = vb = None
@@ -669,6 +669,15 @@ def twin_history(ctx, hseed, out=None):
                 c = build(B)
                 B.do(c)
                 out["dcases"].append(do_step_case(B, limit, before, c))
+            elif kind in ("undo", "redo"):
+                # the History.undo() / redo() step of the control, for SessionsRunner.run_ncase (a HistoryError on
+                # an empty list must leave both lists as they were)
+                before = _abs_lists(B)
+                try:
+                    vb = fn(B)
+                finally:
+                    after = _abs_lists(B)
+                    out.setdefault("ncases", []).append((0 if kind == "undo" else 1, before[0], before[1], after[0], after[1]))
             else:
                 vb = fn(B)
         except Exception as e:  # noqa
@@ -875,7 +884,7 @@ def twin_history(ctx, hseed, out=None):
                 ctx.count("twin_op:" + op[0])
                 if sess > 0 and op[0].startswith("db_") and len(op) > 2 and objdb_plain(A).get(op[1], {}).get(op[2]) == ({}, {}):
                     ctx.count("twin:op_on_scope_that_is_empty_after_reopen")
-                ea, eb, va, vb = both(fn, build)
+                ea, eb, va, vb = both(fn, build, op[0] if len(op) == 1 else None)
                 stale[0] = min(stale[0], len(A.history.redo_list))
                 if ea != eb:
                     ctx.violation(dict(rp, phase="op", errors=[ea, eb]),
@@ -935,12 +944,12 @@ def twin_history(ctx, hseed, out=None):
         # wind the whole history back and forth in both
         steps = 0
         while A.history.undo_list and steps < 60:
-            both(lambda P: P.history.undo())
+            both(lambda P: P.history.undo(), None, "undo")
             steps += 1
             if not compare("final undo %d" % steps):
                 return
         while len(A.history.redo_list) > stale[0] and steps < 120:
-            both(lambda P: P.history.redo())
+            both(lambda P: P.history.redo(), None, "redo")
             steps += 1
             if not compare("final redo %d" % steps):
                 return
@@ -994,6 +1003,41 @@ def run_objdb_cases(ctx, ocases):
     ctx.extra["persist_objdb_cases"] = len(ocases)
     for _ in ocases:
         ctx.traces += 1
+
+
+def run_nav_cases(ctx, ncases):
+    """Every History.undo() / redo() step observed on the never-closed control vs Sessions.hist_undo / hist_redo,
+    inside Coq (the steps the theorems C12_sessions_* quantify over besides History.do)."""
+    if not ncases:
+        return
+    terms = ["{| nc_kind := %s; nc_undo := %s; nc_redo := %s; nc_undo_after := %s; nc_redo_after := %s |}" % (
+                 g_N(k), g_list([g_change(x) for x in u]), g_list([g_change(x) for x in r]),
+                 g_list([g_change(x) for x in ua]), g_list([g_change(x) for x in ra]))
+             for (k, u, r, ua, ra) in ncases]
+    shard = 150
+    header = PHEADER + "From RopeVerif.C12 Require Import Sessions SessionsRunner.\n"
+    bodies = [header + "Definition cases : list ncase := %s.\nEval vm_compute in (nmismatches cases).\n"
+              "Eval vm_compute in (count_empty_steps cases).\n" % g_list(terms[s:s + shard]).replace("; {|", ";\n {|")
+              for s in range(0, len(terms), shard)]
+    outs = ctx.coq_files_parallel(bodies)
+    empty = 0
+    for si, out in enumerate(outs):
+        pairs = ctx.parse_pairs(out)
+        nums = ctx.parse_nums(out)
+        if not nums:
+            raise RuntimeError("C12 SessionsRunner produced no output: %r" % out[:500])
+        empty += nums[-1][0] if nums[-1] else 0
+        for (i, code) in (pairs[0] if pairs else []):
+            nc = ncases[si * shard + i]
+            ctx.violation({"kind": "nav-model", "ncase": repr(nc)[:3000], "code": code,
+                           "broken": "correspondence SessionsRunner.run_ncase (Sessions.hist_undo / hist_redo vs History.undo() / redo()); theorems C12_sessions_lose_nothing / C12_sessions_reopen no longer speak about the code"},
+                          "C12 history: model of History.%s() disagrees with the implementation" % ("undo" if nc[0] == 0 else "redo"), no_input=True)
+    for nc in ncases:
+        ctx.traces += 1
+        ctx.case(("nav-step", repr(nc)), nontrivial=(nc[1], nc[2]) != (nc[3], nc[4]))
+        ctx.count("nav_step:" + ("undo" if nc[0] == 0 else "redo") + (":empty_list" if (nc[1], nc[2]) == (nc[3], nc[4]) else ""))
+    ctx.extra["persist_undo_redo_steps"] = len(ncases)
+    ctx.extra["undo_redo_steps_on_an_empty_list"] = empty
 
 
 def run_do_cases(ctx, dcases):
@@ -1212,6 +1256,7 @@ def run(ctx):
             uniq_o.append(oc)
     run_objdb_cases(ctx, uniq_o[:300])
     run_do_cases(ctx, dcases + tout["dcases"])
+    run_nav_cases(ctx, tout.get("ncases", []))
     # every stored ScopeInfo state goes through the serializer correspondence (version 2, as __getstate__ does)
     if objvals:
         from harness import c12
